@@ -88,6 +88,11 @@ func c03build(c c03cell) (msg *types.MsgReceiveMessage, fault bool) {
 	}
 	if c.has("P7") {
 		m.Caller = sim.Pad32(sim.AcctBytes(1 + c.R))
+		if c.R == 3 {
+			// non-zero only in the high 12 bytes: does not name the submitter
+			m.Caller = make([]byte, 32)
+			m.Caller[11] = 1
+		}
 	}
 	if c.Module {
 		m.Recip = sim.Pad32(sim.ModuleAddrBytes())
